@@ -202,6 +202,9 @@ static void resource_grab(struct cmb_resource *rp, struct cmb_process *pp)
 
 int64_t cmb_resource_acquire(struct cmb_resource *rp)
 {
+    /* Waiting since now, also if it takes several rounds at the guard */
+    const double waiting_since = cmb_time();
+
     cmb_assert_release(rp != NULL);
 
     struct cmi_resourcebase *rbp = (struct cmi_resourcebase *)rp;
@@ -218,9 +221,10 @@ int64_t cmb_resource_acquire(struct cmb_resource *rp)
         }
 
         /* Wait at the front door until resource becomes available */
-        const int64_t ret = cmb_resourceguard_wait(&(rp->guard),
-                                                   is_available,
-                                                   NULL);
+        const int64_t ret = cmi_resourceguard_wait_since(&(rp->guard),
+                                                         is_available,
+                                                         NULL,
+                                                         waiting_since);
 
         /*
          * Now we got past the front door, or perhaps thrown out by the guard.
